@@ -20,5 +20,8 @@ for u, r in zip(units, res):
         base[o["name"]] = "proved" if base.get(o["name"], "proved") == "proved" and o["verdict"] in ("proved", "reachable") else o["verdict"]
 print("total wall", round(time.time() - t0, 1))
 if "--write-baseline" in sys.argv:
-    json.dump({"obligations": base, "unit_props": unit_props}, open(os.path.join(os.path.dirname(os.path.dirname(os.path.abspath(__file__))), "baseline_obligations.json"), "w"), indent=0, sort_keys=True)
+    from pyvc.front import Repo, local_names, shape_hash, _strip
+    repo = Repo()
+    locs = {q: {"shape": shape_hash(fi.node), "locals": local_names(_strip(fi.node))} for q, fi in repo.functions.items()}
+    json.dump({"obligations": base, "unit_props": unit_props, "locals": locs}, open(os.path.join(os.path.dirname(os.path.dirname(os.path.abspath(__file__))), "baseline_obligations.json"), "w"), indent=0, sort_keys=True)
     print("baseline written:", len(base))
